@@ -168,16 +168,18 @@ type Node struct {
 	ownMeta []*Emitted
 	pending []*delivery // deliveries from others, FIFO
 
-	writes    int // durable writes since (re)start arming
-	armed     bool
-	crashAt   int
-	dead      chan string
-	diedAt    string
-	restarts  int
-	lastStore int64
-	startErr  error
-	emitSeq   int
-	inputs    int
+	writes         int // durable writes since (re)start arming
+	armed          bool
+	crashAt        int
+	dead           chan string
+	diedAt         string
+	restarts       int
+	lastStore      int64
+	startErr       error
+	emitSeq        int
+	inputs         int
+	stepWrites     int  // durable writes since the current input was handed over
+	diedFirstWrite bool // the crash hit the first write of a step (= the WAL record of the input itself)
 }
 
 func (n *Node) onWrite(site string) {
@@ -185,10 +187,12 @@ func (n *Node) onWrite(site string) {
 		return
 	}
 	n.writes++
+	n.stepWrites++
 	n.net.writeLog = append(n.net.writeLog, fmt.Sprintf("n%d#%d %s", n.Idx, n.writes, site))
 	if n.crashAt > 0 && n.writes == n.crashAt {
 		n.alive = false
 		n.diedAt = site
+		n.diedFirstWrite = n.stepWrites == 1
 		n.dead <- site
 		runtime.Goexit()
 	}
@@ -613,6 +617,7 @@ func (nt *Net) step(n *Node, kind inputKind, d *delivery, toIdx int) {
 	}
 	nt.Trace = append(nt.Trace, desc)
 	hBefore := n.cs.VerifRoundState().Height
+	n.stepWrites = 0
 	n.gate.Go <- struct{}{}
 	select {
 	case <-time.After(4 * wedgeTimeout):
